@@ -42,3 +42,47 @@ M('c01-coef', ['C01'], PU, 'cs[j1,j2] = cs1[j1] * cs2[j2]', 'cs[j1,j2] = cs1[j1]
 B('c01-benign-commute', ['C01'], PU, 'ipow += g1z * g2x - g1x * g2z + 2*((gx//2) * gz + gx * (gz//2))', 'ipow += 2*(gx * (gz//2) + (gx//2) * gz) - g1x * g2z + g2x * g1z')
 B('c01-benign-rename', ['C01'], PU, '        acq += g1[2*i+1]*g2[2*i] - g1[2*i]*g2[2*i+1]\n    return acq % 2', '        acq += g1[1+2*i]*g2[i*2] - g1[2*i]*g2[2*i+1]\n    return acq % 2')
 B('c01-benign-matmul-order', ['C01'], PP, 'p = (self.p + other.p + ipow(self.g, other.g)) % 4', 'p = (ipow(self.g, other.g) + other.p + self.p) % 4')
+
+# ------------------------------------------------------------------ C02
+M('c02-const3', ['C02'], PU, 'ps[j] = (ps[j] + p + 1 + ipow(gs[j], g))%4', 'ps[j] = (ps[j] + p + 3 + ipow(gs[j], g))%4', ['R7c'])
+M('c02-order', ['C02'], PU, '            ps[j] = (ps[j] + p + 1 + ipow(gs[j], g))%4\n            gs[j] = (gs[j] + g)%2\n    return gs, ps', '            gs[j] = (gs[j] + g)%2\n            ps[j] = (ps[j] + p + 1 + ipow(gs[j], g))%4\n    return gs, ps', ['R7b'])
+M('c02-drop-p', ['C02'], PU, 'ps[j] = (ps[j] + p + 1 + ipow(gs[j], g))%4', 'ps[j] = (ps[j] + 1 + ipow(gs[j], g))%4', ['R7e'])
+M('c02-swap-ipow', ['C02'], PU, 'ps[j] = (ps[j] + p + 1 + ipow(gs[j], g))%4', 'ps[j] = (ps[j] + p + 1 + ipow(g, gs[j]))%4', ['R7c'])
+M('c02-guard-neg', ['C02'], PU, '        if acq(g, gs[j]):\n            ps[j] = (ps[j] + p + 1', '        if not acq(g, gs[j]):\n            ps[j] = (ps[j] + p + 1', ['R7.guard'])
+M('c02-guard-gone', ['C02'], PU, '        if acq(g, gs[j]):\n            ps[j] = (ps[j] + p + 1', '        if True:\n            ps[j] = (ps[j] + p + 1', ['R7.guard'])
+M('c02-scatter', ['C02'], PP, '            self.gs[:,mask2], self.ps = clifford_rotate(\n                generator.g, generator.p, self.gs[:,mask2], self.ps)', '            self.gs[:,mask], self.ps = clifford_rotate(\n                generator.g, generator.p, self.gs[:,mask2], self.ps)', ['R5', 'R13'])
+M('c02-tile', ['C02'], PP, '            mask2 = numpy.repeat(mask,  2)', '            mask2 = numpy.tile(mask,  2)', ['R13.mask'])
+M('c02-genphase', ['C02'], PP, '            clifford_rotate(generator.g, generator.p, self.gs, self.ps)', '            clifford_rotate(generator.g, 0, self.gs, self.ps)', ['R6.gen'])
+M('c02-discard-masked', ['C02'], PP, '            self.gs[:,mask2], self.ps = clifford_rotate(\n                generator.g, generator.p, self.gs[:,mask2], self.ps)', '            clifford_rotate(\n                generator.g, generator.p, self.gs[:,mask2], self.ps)', ['R5'])
+M('c02-tc-discard', ['C02'], TP, '            self.gs, self.ps = clifford_rotate(generator.g, generator.p, self.gs, self.ps)', '            clifford_rotate(generator.g, generator.p, self.gs, self.ps)', ['R5'])
+M('c02-tc-unmasked-phase', ['C02'], TU, 'ps = (ps + (p + 1 + ipow(gs, g.unsqueeze(0))) * mask) % 4', 'ps = (ps + (p + 1 + ipow(gs, g.unsqueeze(0))) * mask + mask*0 + 2*(1-mask)*0 + p) % 4', ['R7'])
+M('c02-tc-order', ['C02'], TU, 'ps = (ps + (p + 1 + ipow(gs, g.unsqueeze(0))) * mask) % 4', 'ps = (ps + (p + 1 + ipow(g.unsqueeze(0), gs)) * mask) % 4', ['R7c'])
+M('c02-tc-mask', ['C02'], TU, '    mask = acq(g, gs)\n    ps = (ps + (p + 1', '    mask = 1 - acq(g, gs)\n    ps = (ps + (p + 1', ['R7.guard'])
+M('c02-map-init', ['C02'], PS, '    ps = numpy.zeros(2*gen.N, dtype=numpy.int_) # initialize', '    ps = numpy.ones(2*gen.N, dtype=numpy.int_) # initialize', ['R12.init'])
+M('c02-neg', ['C02'], PP, '    def __neg__(self):\n        return type(self)(self.g, (self.p + 2) % 4)', '    def __neg__(self):\n        return type(self)(self.g, (self.p + 1) % 4)', ['R12.neg'])
+M('c02-back', ['C02'], PP, '        result = self.as_list().rotate_by(generator, mask=mask)\n        self.g = result.gs[0]\n        self.p = result.ps[0]', '        result = self.as_list().rotate_by(generator, mask=mask)\n        self.g = result.gs[0]', ['R5.back'])
+M('c02-signless-guard', ['C02'], PU, '        if acq(g, gs[j]):\n            gs[j] = (gs[j] + g)%2\n    return gs\n', '        if acq(g, gs[j]) == 0:\n            gs[j] = (gs[j] + g)%2\n    return gs\n', ['R7.guard'])
+B('c02-benign-gp3', ['C02'], PU, 'ps[j] = (ps[j] + p + 1 + ipow(gs[j], g))%4', 'ps[j] = (ipow(g, gs[j]) + 3 + p + ps[j])%4')
+B('c02-benign-guard', ['C02'], PU, '        if acq(g, gs[j]):\n            ps[j] = (ps[j] + p + 1', '        if acq(gs[j], g) == 1:\n            ps[j] = (ps[j] + p + 1')
+B('c02-benign-guard2', ['C02'], PU, '        if acq(g, gs[j]):\n            ps[j] = (ps[j] + p + 1', '        if acq(g, gs[j]) != 0:\n            ps[j] = (ps[j] + p + 1')
+
+# ------------------------------------------------------------------ C03
+M('c03-drop-ps0', ['C03'], PU, '    ps_out = (ps_in + ps0(gs_in) + ps_out)%4', '    ps_out = (ps_in + ps_out)%4', ['R6.formula'])
+M('c03-combine-swap-stmts', ['C03'], PU, '                ps_out[j_out] = (ps_out[j_out] + ps_in[j_in] + ipow(gs_out[j_out], gs_in[j_in]))%4\n                gs_out[j_out] = (gs_out[j_out] + gs_in[j_in])%2', '                gs_out[j_out] = (gs_out[j_out] + gs_in[j_in])%2\n                ps_out[j_out] = (ps_out[j_out] + ps_in[j_in] + ipow(gs_out[j_out], gs_in[j_in]))%4', ['R7b'])
+M('c03-combine-order', ['C03'], PU, 'ipow(gs_out[j_out], gs_in[j_in]))%4', 'ipow(gs_in[j_in], gs_out[j_out]))%4', ['R7c'])
+M('c03-combine-desc', ['C03'], PU, '        for j_in in range(L_in):\n            if C[j_out, j_in]:', '        for j_in in range(L_in-1, -1, -1):\n            if C[j_out, j_in]:', ['R10.asc'])
+M('c03-combine-select-T', ['C03'], PU, '            if C[j_out, j_in]:', '            if C[j_in, j_out]:', ['R7.select'])
+M('c03-combine-drop-phase-in', ['C03'], PU, 'ps_out[j_out] = (ps_out[j_out] + ps_in[j_in] + ipow', 'ps_out[j_out] = (ps_out[j_out] + ipow', ['R7e'])
+M('c03-transform-args', ['C03'], PU, '    gs_out, ps_out = pauli_combine(gs_in, gs_map, ps_map)', '    gs_out, ps_out = pauli_combine(gs_map, gs_in, ps_map)', ['R2'])
+M('c03-transform-psin', ['C03'], PU, '    gs_out, ps_out = pauli_combine(gs_in, gs_map, ps_map)', '    gs_out, ps_out = pauli_combine(gs_in, gs_map, ps_in)', ['R2'])
+M('c03-transform-mod', ['C03'], PU, '    ps_out = (ps_in + ps0(gs_in) + ps_out)%4', '    ps_out = (ps_in + ps0(gs_in) + ps_out)%2', ['R7d'])
+M('c03-embed-ps-mask', ['C03'], PS, '        self.ps[mask2] = small_map.ps', '        self.ps[mask] = small_map.ps', ['R13'])
+M('c03-embed-tile', ['C03'], PS, '    def embed(self, small_map, mask):\n        \'\'\'Embed a smaller map acting on a subsystem specified by qubit indices.\'\'\'\n        mask2 = numpy.repeat(mask, 2)', '    def embed(self, small_map, mask):\n        \'\'\'Embed a smaller map acting on a subsystem specified by qubit indices.\'\'\'\n        mask2 = numpy.tile(mask, 2)', ['R13.mask'])
+M('c03-embed-src', ['C03'], PS, '        self.ps[mask2] = small_map.ps', '        self.ps[mask2] = self.ps[mask2]', ['R2.embed'])
+M('c03-transformby-scatter', ['C03'], PP, '            self.gs[:,mask2], self.ps = pauli_transform(\n                self.gs[:,mask2], self.ps, clifford_map.gs, clifford_map.ps)', '            self.gs[:,mask2], self.ps = pauli_transform(\n                self.gs[:,mask], self.ps, clifford_map.gs, clifford_map.ps)', ['R5', 'R13'])
+M('c03-transformby-swap', ['C03'], PP, '            self.gs, self.ps = pauli_transform(self.gs, self.ps, \n                clifford_map.gs, clifford_map.ps)', '            self.gs, self.ps = pauli_transform(clifford_map.gs, clifford_map.ps, \n                self.gs, self.ps)', ['R2'])
+M('c03-transformby-owner', ['C03'], PP, '            self.gs, self.ps = pauli_transform(self.gs, self.ps, \n                clifford_map.gs, clifford_map.ps)', '            self.gs, self.ps = pauli_transform(self.gs, clifford_map.ps, \n                clifford_map.gs, self.ps)', ['R2'])
+M('c03-tc-ps0', ['C03', 'C13'], TU, "    return torch.sum(gs[...,::2] * gs[...,1::2], dim=-1) % 4", "    return torch.sum(gs[...,::2] + gs[...,1::2], dim=-1) % 4", ['R8'])
+M('c03-ps0-slot', ['C03'], PU, 'ps0[j] += gs[j,2*i] * gs[j,2*i+1]', 'ps0[j] += gs[j,2*i] * gs[j,2*i]', ['R8'])
+M('c03-start', ['C03'], PU, '    ps_out = numpy.zeros((L_out,), dtype=numpy.int_)\n    for j_out', '    ps_out = numpy.ones((L_out,), dtype=numpy.int_)\n    for j_out', ['R7.start'])
+B('c03-benign-formula', ['C03'], PU, '    ps_out = (ps_in + ps0(gs_in) + ps_out)%4', '    ps_out = (ps_out + ps_in + ps0(gs_in))%4')
